@@ -524,18 +524,32 @@ fn gen_font_strategy() -> impl Strategy<Value = GenFont> {
         .prop_map(|(glyphs, num_h_metrics_pick, long_loca, chars, extra_lens, seed)| GenFont { glyphs, num_h_metrics_pick, long_loca, chars, extra_lens, seed })
 }
 
-fn composite_glyph(components: &[(u16, i16, i16)]) -> Vec<u8> {
+/// `instr`: instructions that follow the last component, and which component(s) carry
+/// WE_HAVE_INSTRUCTIONS (index; `components.len()` = every component). `xform`: a scale
+/// (WE_HAVE_A_SCALE) on the first component.
+fn composite_glyph(components: &[(u16, i16, i16)], instr: Option<(&[u8], usize)>, xform: Option<i16>) -> Vec<u8> {
     let mut b = Buf::new();
     b.i16(-1).i16(0).i16(0).i16(500).i16(700);
     for (k, (g, dx, dy)) in components.iter().enumerate() {
         let more = if k + 1 < components.len() { 0x0020 } else { 0 };
         let words = *dx < -128 || *dx > 127 || *dy < -128 || *dy > 127 || k % 2 == 0;
-        b.u16(0x0002 | more | if words { 1 } else { 0 }).u16(*g);
+        let have_instr = match instr {
+            Some((_, c)) if c == k || c >= components.len() => 0x0100,
+            _ => 0,
+        };
+        let scale = if k == 0 && xform.is_some() { 0x0008 } else { 0 };
+        b.u16(0x0002 | more | have_instr | scale | if words { 1 } else { 0 }).u16(*g);
         if words {
             b.i16(*dx).i16(*dy);
         } else {
             b.i8(*dx as i8).i8(*dy as i8);
         }
+        if scale != 0 {
+            b.i16(xform.unwrap());
+        }
+    }
+    if let Some((ins, _)) = instr {
+        b.u16(ins.len() as u16).bytes(ins);
     }
     b.into_vec()
 }
@@ -557,7 +571,12 @@ fn build_gen_font(g: &GenFont) -> BasicFont {
                     comps.push((shallow((*r as usize / 7 % i) as u16, &depth), 5, -5));
                 }
                 depth[i] = 1 + comps.iter().map(|c| depth[c.0 as usize]).max().unwrap_or(0);
-                composite_glyph(&comps)
+                // one composite in three carries instructions, the flag on any one component or on
+                // all of them; one in four scales its first component
+                let ins: Vec<u8> = (0..*ilen).map(|k| k.wrapping_mul(29)).collect();
+                let instr = if *r % 3 == 0 { Some((&ins[..], (*r as usize / 3) % (comps.len() + 1))) } else { None };
+                let xform = if *r % 4 == 1 { Some(0x2000 + (*r % 0x3000) as i16) } else { None };
+                composite_glyph(&comps, instr, xform)
             }
             _ => {
                 let mut sg = SimpleGlyph::rect(10, 0, 100 + (*r % 400) as i16, 100 + (*r / 400) as i16);
@@ -1232,7 +1251,7 @@ mod w2gen {
 fn check_validator_selftest(i: u64, rec: &mut Rec) -> CaseResult {
     use crate::fontgen::container::{encode_sfnt, Blob, Member, Model, SfntLayout};
     let mut f = BasicFont::with_glyphs(7);
-    f.glyph_records[5] = composite_glyph(&[(1, 10, 10), (2, -200, 300)]);
+    f.glyph_records[5] = composite_glyph(&[(1, 10, 10), (2, -200, 300)], None, None);
     f.glyph_records[6] = Vec::new();
     f.glyph_records[3] = {
         let mut g = SimpleGlyph::rect(0, 0, 300, 300);
@@ -1356,7 +1375,7 @@ fn check_validator_selftest(i: u64, rec: &mut Rec) -> CaseResult {
         }
         12 | 13 => {
             let mut f2 = f.clone();
-            f2.glyph_records[5] = composite_glyph(&[(if i == 12 { 999 } else { 5 }, 0, 0)]);
+            f2.glyph_records[5] = composite_glyph(&[(if i == 12 { 999 } else { 5 }, 0, 0)], None, None);
             let t: BTreeMap<Tag, Vec<u8>> = f2.tables().into_iter().collect();
             expect(table_codes(&t), if i == 12 { "glyf:component-out-of-range" } else { "glyf:component-cycle" }, "component id 999 / self reference")
         }
